@@ -1098,7 +1098,9 @@ func (u *Unit) typeAssertVal(st *State, v Val, t types.Type, commaOk bool, pos t
 	okT := sEq(app("dyntype", v.T), strconv.Itoa(tid))
 	res := Val{T: app(unbox, v.T), Ty: t, So: u.sortOf(t)}
 	if !commaOk {
-		u.oblige("nopanic", "assert."+u.safeLabel("assert"), pos, st, okT, "type assertion holds")
+		if u.contract == nil || !u.contract.MayPanic {
+			u.oblige("nopanic", "assert."+u.safeLabel("assert"), pos, st, okT, "type assertion holds")
+		}
 		st.assume(okT)
 		return res, okT
 	}
